@@ -39,7 +39,7 @@ class Contract:
                  self_type=None, lemmas=(), exc_ensures=None, start_loop=None, start_assume=(),
                  name=None, notes='', trusted=False, body=None, stop_at_loop_exit=None, end_ensures=None,
                  calls=None, level='P', ghost=None, yields=None, rely=None, inline_src=None,
-                 skip_frame=False, at_exit=()):
+                 skip_frame=False, at_exit=(), fields=None, ghost_requires=(), ghost_sets=None):
         self.target = target
         self.file, self.qualname = target.split('::') if '::' in target else (None, target)
         self.params = dict(params or {})
@@ -69,6 +69,8 @@ class Contract:
         self.inline_src = inline_src
         self.skip_frame = skip_frame
         self.at_exit = [at_exit] if isinstance(at_exit, str) else list(at_exit)
+        self.fields = dict(fields or {})
+        self.ghost_sets = dict(ghost_sets or {})   # ghost global name -> expression (over old state) it is set to by a call
 
 
 class ClassDecl:
@@ -108,6 +110,7 @@ class Prop:
         self.uf = {}
         self.axioms = []
         self.natives = {}
+        self.ghosts = {}
 
     def cls(self, name, bases=(), fields=None, elem=None, props=None, truthy=None, consts=None):
         c = ClassDecl(name, bases, fields, elem, props, truthy, consts)
@@ -117,6 +120,10 @@ class Prop:
                 raise ValueError('field %s declared with two types (%s, %s); qualify it' % (f, self.fields[f], t))
             self.fields[f] = t
         return c
+
+    def ghost(self, name, typ):
+        """Ghost global (call-protocol state); written only through Contract.ghost_sets of trusted contracts."""
+        self.ghosts[name] = typ
 
     def const(self, name, value):
         self.consts[name] = value
